@@ -402,10 +402,11 @@ package contracts
 //@   ensures err == nil ==> lastLoadedPair == cert
 //@   ensures err != nil ==> lastLoadedPair == old(lastLoadedPair)
 
+//@ ghost var watchedNames seq[string]
 //@ func fsnotify.(*Watcher).Add :: w, name -> err
 //@   trusted
-//@   assigns cwlog, lastWatched
-//@   ensures cwlog == old(cwlog) ++ seq[int]{1} && lastWatched == name
+//@   assigns cwlog, lastWatched, watchedNames
+//@   ensures cwlog == old(cwlog) ++ seq[int]{1} && lastWatched == name && watchedNames == old(watchedNames) ++ seq[string]{name}
 
 //@ func fsnotify.NewWatcher :: -> w, err
 //@   trusted
